@@ -17,34 +17,52 @@ REQUIRED = ['C18.keyTransform_join', 'C18.keyTransform_too_deep', 'C18.cfgGet_eq
             'C18.cfgDel_eq_nested', 'C18.legacy_text_route_not_inverse', 'C18.legacy_dump_mutated_nested', 'C18.path_get_eq_nested', 'C18.path_set_eq_nested',
             'C18.path_del_eq_nested', 'C18.get_set_same', 'C18.get_set_other', 'C18.del_removes_only',
             'C18.del_keeps_parent', 'C18.set_missing_parent_errors', 'C18.toYamlSafe_idempotent',
-            'C18.toYamlSafe_arrayFree', 'C18.toYamlSafe_same_options', 'C18.roundtrip_file', 'C18.roundtrip_text',
+            'C18.toYamlSafe_arrayFree', 'C18.toYamlSafe_yamlSafe', 'C18.toYamlSafe_numpy_scalar', 'C18.toYamlSafe_same_options',
+            'C18.roundtrip_file', 'C18.roundtrip_text', 'C18.roundtrip_second_trip_identity',
+            'C18.numpy_scalar_not_loadable_before_fix', 'C18.alias_copy_denotes_same_options',
+            'C18.alias_top_level_edit_not_seen', 'C18.alias_nested_edit_is_seen', 'C18.get_func_shares_nested_dicts_current',
             'C18.roundtrip_get_func', 'C18.dump_leaves_config_untouched', 'C18.default_config_is_signature_defaults',
             'C18.default_config_agrees_with_option_model']
 TRUSTED = ['PyYAML (dump / dump_all / load / load_all with FullLoader) is an oracle: assumed to satisfy load(dump(t)) = t on '
-           'array-free trees; validated on the real library on every run (stream yaml_codec)',
+           'trees without ndarrays and numpy scalars (yamlSafe); validated on the real library on every run (stream yaml_codec), '
+           'together with the refusal (ConstructorError) of trees that hold a numpy scalar, which the driver codec mirrors',
            'inspect.signature is an oracle: the live signatures are handed to the get_config model as tables',
            'error classes of str-indexing Python / numpy objects (TypeError, IndexError, ValueError) are part of the model '
            'and validated by the edit-sequence correspondence',
            'numerical behaviour of the sift variants is not modelled here: behavioural equality of config-driven and plain '
            'calls is decided by the instance check only (bit-identical outputs, seeded numpy RNG, nprocesses=1)']
-ASSUMPTIONS = ['yaml_roundtrip_safe_tree: yaml.load(yaml.dump(t)) == t (types included) for array-free option trees; '
-               'list(yaml.load_all(yaml.dump_all(ts))) == ts',
-               'no Python object is stored under two keys of one configuration (aliasing has no counterpart in the model)',
-               'option values are scalars, None, lists/tuples without arrays, arrays of scalars, and dicts of these',
+ASSUMPTIONS = ['yaml_roundtrip_safe_tree: yaml.load(yaml.dump(t)) == t (types included) for option trees without ndarrays and '
+               'numpy scalars; list(yaml.load_all(yaml.dump_all(ts))) == ts',
+               'no Python object is stored under two keys of one configuration (aliasing has no counterpart in the Tree model)',
+               'OUTSIDE the property (observed, stream aliasing; Lean C18.alias_*): get_func() returns functools.partial(func, '
+               '**self.store), so the partial (like SiftConfig(name, **cfg), dict(cfg), SiftConfig(name, cfg.store)) shares the '
+               'NESTED option dicts with the live configuration: a nested edit of the configuration made AFTER get_func() '
+               'changes what the partial does (cfg[\'imf_opts/sd_thresh\'] = 5.0 -> different IMFs), a one-level edit does not. '
+               'The property promises a callable that behaves like the original call, not one frozen against later edits of its '
+               'source configuration; the theorems represent the partial by the store at the time it was taken',
+               'option values are Python or numpy scalars (np.float64/32/16, np.int64/32, np.uint8, np.bool_), None, lists/tuples '
+               'without arrays (numpy scalars allowed at any depth inside them), numeric arrays, and dicts of these; a numpy '
+               'scalar reads back as the Python scalar of the same value (np.float32(0.1) -> 0.10000000149011612)',
                'to_yaml_file / from_yaml_file format str(config) for their log line whatever the log level: a configuration whose '
                'imf_opts / envelope_opts / extrema_opts entry is not a dict raises AttributeError there (modelled as is; the '
                'round-trip theorems assume the three stage entries are dicts)']
 RULE = ('edit sequences: 3-12 (quick) / up to 40 (thorough) get/set/del operations with slash keys of depth 1-4 on the '
         'default configuration of a random variant or on a random nested dict; keys are mostly existing paths, plus new '
         'leaves, missing parents, non-dict parents (scalar, list, tuple, array) and too-deep keys; values are scalars, None, '
-        'lists, tuples, 1-D/2-D arrays, nested dicts. yaml: the same edited configurations through the file and the text '
+        'lists, tuples, 1-D/2-D arrays, nested dicts, numpy scalars (alone and inside lists/tuples/dicts). yaml: the same edited configurations through the file and the text '
         'route. foreign: hand-written YAML (one document, plain mapping, short/long lists). behaviour: 4 variants x signals x '
         'edited options x {unpack, get_func, file, text}. Non-trivial: an edit sequence that contains a successful depth>=2 '
         'write or delete and at least one raised error; a YAML case whose store holds a tuple or array below the top level.')
 
-LEGACY = 0      # 1 = model of the pinned (pre-D14-repair) code, used once to rediscover the defect
+LEGACY = 0      # 1 = model of the pinned (pre-D14-repair) code, 2 = model before the numpy-scalar repair (D38); each used
+                # once to rediscover the defect
 
 VARIANTS = ['sift', 'ensemble_sift', 'complete_ensemble_sift', 'mask_sift']
+
+
+def NP(t, v):
+    """JSON form of the numpy scalar np.<t>(v)"""
+    return {'$': 'np', 't': t, 'v': v}
 
 
 def sift_mod():
@@ -128,7 +146,7 @@ def gen_ops(rng, store, n):
         o = rng.choice(['get', 'get', 'set', 'set', 'set', 'del'])
         op = {'o': o, 'k': key}
         if o == 'set':
-            op['v'] = _cfg.rand_value(rng, 2, plain_only=False)
+            op['v'] = _cfg.rand_value(rng, 2, plain_only=False, np_scalars=0.5 if rng.random() < 0.3 else 0.0)
         ops.append(op)
         if len(key.split('/')) <= 3:
             apply_nested(store, op)
@@ -167,6 +185,17 @@ class Edits(Stream):
                 {'o': 'set', 'k': 'a/b/c', 'v': T()}, {'o': 'get', 'k': 'a'}, {'o': 'del', 'k': 'a'}, {'o': 'get', 'k': 'f'}]},
             {'init': {'store': D(('a/b', 1), ('a', D(('b', 2))))}, 'ops': [
                 {'o': 'get', 'k': 'a/b'}, {'o': 'set', 'k': 'a/b', 'v': 3}, {'o': 'del', 'k': 'a/b'}, {'o': 'get', 'k': 'a'}]},
+            # numpy scalars as option values and as (non-dict) parents: read back unchanged; get below one raises IndexError
+            # ("invalid index to scalar variable"), set / del below one TypeError
+            {'init': {'config': 'sift'}, 'ops': [
+                {'o': 'set', 'k': 'imf_opts/sd_thresh', 'v': NP('float64', 0.1)}, {'o': 'get', 'k': 'imf_opts/sd_thresh'},
+                {'o': 'set', 'k': 'max_imfs', 'v': NP('int64', 3)}, {'o': 'get', 'k': 'max_imfs/x'},
+                {'o': 'set', 'k': 'max_imfs/x', 'v': 1}, {'o': 'del', 'k': 'max_imfs/x'}, {'o': 'get', 'k': 'imf_opts/sd_thresh/x'},
+                {'o': 'set', 'k': 'imf_opts/sd_thresh/x', 'v': 1}, {'o': 'del', 'k': 'imf_opts/sd_thresh/x'},
+                {'o': 'set', 'k': 'extrema_opts/parabolic_extrema', 'v': NP('bool', True)},
+                {'o': 'get', 'k': 'extrema_opts/parabolic_extrema/x'}, {'o': 'del', 'k': 'extrema_opts/parabolic_extrema/x'},
+                {'o': 'set', 'k': 'imf_opts/rilling_thresh', 'v': T(NP('float64', 0.05), 0.5, NP('float32', 0.05))},
+                {'o': 'get', 'k': 'imf_opts'}]},
         ]
 
     def generate(self, rng, tier):
@@ -361,7 +390,7 @@ def gen_plain_sets(rng, store, n):
         p = rng.choice(paths) if paths and rng.random() < 0.7 else (rng.choice(paths + [()])[:2] + (rng.choice(['new', 'x', 'k']),))
         if len(p) >= 2 and not isinstance(_get(store, p[:-1]), dict):
             p = p[:1]
-        v = _cfg.rand_value(rng, 2, plain_only=True)
+        v = _cfg.rand_value(rng, 2, plain_only=True, np_scalars=0.5 if rng.random() < 0.35 else 0.0)
         if len(p) == 1 and p[0] in ('imf_opts', 'envelope_opts', 'extrema_opts') and not (isinstance(v, dict) and v['$'] == 'dict'):
             if rng.random() < 0.85:      # mostly keep the stage entries dictionaries (str(config) needs them)
                 p = p + ('x',) if isinstance(store.get(p[0]), dict) else ('x',)
@@ -399,6 +428,16 @@ class YamlRoutes(Stream):
             out.append({'init': {'name': 'my sift: type', 'store': D()}, 'ops': [], 'route': route})
             inner = D(('d', T(1, T(2))), ('e', A(1, 2)))
             out.append({'init': {'name': 'sift', 'store': D(('a', D(('b', D(('c', inner))))))}, 'ops': [], 'route': route})
+            # D38 witnesses: a numpy scalar as an option value (values computed with numpy; np.float64 is a float subclass)
+            out.append({'init': {'config': 'sift'}, 'route': route, 'ops': [
+                {'o': 'set', 'k': 'imf_opts/sd_thresh', 'v': NP('float64', 0.1)}]})
+            out.append({'init': {'config': 'sift'}, 'route': route, 'ops': [{'o': 'set', 'k': 'max_imfs', 'v': NP('int64', 3)}]})
+            out.append({'init': {'config': 'mask_sift'}, 'route': route, 'ops': [
+                {'o': 'set', 'k': 'imf_opts/rilling_thresh', 'v': T(NP('float64', 0.05), 0.5, NP('float32', 0.05))},
+                {'o': 'set', 'k': 'mask_amp', 'v': [NP('float32', 1.0), 0.5, [NP('int32', 2), T(NP('uint8', 1))]]},
+                {'o': 'set', 'k': 'extrema_opts/parabolic_extrema', 'v': NP('bool', True)},
+                {'o': 'set', 'k': 'extrema_opts/mag_pad_opts/stat_length', 'v': NP('int64', 2)},
+                {'o': 'set', 'k': 'extrema_opts/loc_pad_opts', 'v': D(('mode', 'reflect'), ('k', [D(('j', NP('float16', 0.5)))]))}]})
         return out
 
     def generate(self, rng, tier):
@@ -510,6 +549,8 @@ class YamlRoutes(Stream):
                 t.append('array-at-top')
             if any(isinstance(x, (tuple, np.ndarray)) for d in nested for x in _leaves(d)):
                 t.append('tuple-or-array-nested')
+            if 'J' in [tok[:1] for tok in out['before'].split(',')]:
+                t.append('numpy-scalar')
             t.append('empty-store' if not o else 'nonempty-store')
         return t
 
@@ -537,15 +578,33 @@ class YamlCodec(Stream):
     def corpus(self):
         return [{'docs': [{'$': 'dict', 'v': [['a', {'$': 'tuple', 'v': [1, 2.0, True, None, '1', 'null', '']}],
                                                ['b', [1e-8, 1e-300, 2.5e10, -0.0, [[], {'$': 'tuple', 'v': []}]]],
-                                               ['', {'$': 'dict', 'v': []}], ['x: y', '- z']]}]}]
+                                               ['', {'$': 'dict', 'v': []}], ['x: y', '- z']]}]}] + \
+            [{'docs': [d], 'refused': True} for d in (NP('float64', 0.1), NP('float32', 0.5), NP('int64', 3), NP('uint8', 3),
+                                                      NP('bool', True), [1, {'$': 'tuple', 'v': [NP('float16', 0.5)]}])]
 
     def generate(self, rng, tier):
         for i in range(1500 if tier == 'thorough' else 150):
             yield {'docs': [_strip_arrays(_cfg.rand_value(rng, 3, plain_only=True)) for _ in range(rng.randint(1, 3))]}
+        for i in range(300 if tier == 'thorough' else 40):
+            # the refusal the driver codec mirrors: a document holding a numpy scalar is dumped but not loaded
+            d = _strip_arrays(_cfg.rand_value(rng, 2, plain_only=True, np_scalars=0.6))
+            if _has_np(d):
+                yield {'docs': [d], 'refused': True}
 
     def impl(self, case):
         import yaml
         docs = [_cfg.build(d) for d in case['docs']]
+        if case.get('refused'):
+            res = []
+            for f in (lambda: yaml.load(yaml.dump(docs[0], sort_keys=False), Loader=yaml.FullLoader),
+                      lambda: yaml.load(yaml.dump([{'sift_type': 'sift'}, {'k': docs[0]}], sort_keys=False), Loader=yaml.FullLoader),
+                      lambda: list(yaml.load_all(yaml.dump_all([{'a': 1}, {'k': docs[0]}], sort_keys=False), Loader=yaml.FullLoader))):
+                try:
+                    f()
+                    res.append('loaded')
+                except Exception as e:  # noqa
+                    res.append(type(e).__name__)
+            return {'refusal': res}
         one = [_cfg.safe_wire(yaml.load(yaml.dump(d, sort_keys=False), Loader=yaml.FullLoader)) for d in docs]
         lst = _cfg.safe_wire(yaml.load(yaml.dump(docs, sort_keys=False), Loader=yaml.FullLoader))
         many = _cfg.safe_wire(list(yaml.load_all(yaml.dump_all(docs, sort_keys=False), Loader=yaml.FullLoader)))
@@ -554,6 +613,10 @@ class YamlCodec(Stream):
     def holds(self, case, out):
         if isinstance(out, ImplError):
             return [Failure('assumption:yaml_roundtrip_safe_tree:raises:' + out['error'], out['msg'])]
+        if case.get('refused'):
+            if out['refusal'] != ['ConstructorError'] * 3:
+                return [Failure('assumption:yaml_refuses_numpy_scalar', '%s -> %s' % (case['docs'], out['refusal']))]
+            return []
         docs = [_cfg.build(d) for d in case['docs']]
         exp = [_cfg.wire(d) for d in docs]
         if out['one'] != exp or out['list'] != _cfg.wire(docs) or out['many'] != _cfg.wire(docs):
@@ -561,7 +624,19 @@ class YamlCodec(Stream):
         return []
 
     def tags(self, case, out):
-        return ['ndocs=%d' % len(case['docs'])]
+        return ['ndocs=%d' % len(case['docs'])] + (['refused-numpy-scalar'] if case.get('refused') else [])
+
+
+def _has_np(j):
+    if isinstance(j, dict):
+        if j['$'] == 'np':
+            return True
+        if j['$'] == 'dict':
+            return any(_has_np(v) for _, v in j['v'])
+        return any(_has_np(x) for x in j['v'])
+    if isinstance(j, list):
+        return any(_has_np(x) for x in j)
+    return False
 
 
 def _strip_arrays(j):
@@ -570,6 +645,8 @@ def _strip_arrays(j):
             return j['v']
         if j['$'] == 'tuple':
             return {'$': 'tuple', 'v': [_strip_arrays(x) for x in j['v']]}
+        if j['$'] == 'np':
+            return j
         return {'$': 'dict', 'v': [[k, _strip_arrays(v)] for k, v in j['v']]}
     if isinstance(j, list):
         return [_strip_arrays(x) for x in j]
@@ -792,6 +869,11 @@ BEHAVIOUR_EDITS = {
         [{'k': 'extrema_opts/parabolic_extrema', 'v': True}], [{'k': 'max_imfs', 'v': 2}],
         [{'k': 'extrema_opts/mag_pad_opts', 'v': {'$': 'dict', 'v': [['mode', 'mean'], ['stat_length', {'$': 'tuple', 'v': [2, 2]}]]}}],
         [{'k': 'extrema_opts/loc_pad_opts/reflect_type', 'v': 'odd'}, {'k': 'sift_thresh', 'v': 1e-6}],
+        # values computed with numpy (D38): the loaded configuration must still behave like the edited one
+        [{'k': 'imf_opts/sd_thresh', 'v': NP('float64', 0.05)}, {'k': 'max_imfs', 'v': NP('int64', 3)}],
+        [{'k': 'imf_opts/stop_method', 'v': 'rilling'},
+         {'k': 'imf_opts/rilling_thresh', 'v': {'$': 'tuple', 'v': [NP('float64', 0.1), 0.6, NP('float32', 0.125)]}}],
+        [{'k': 'extrema_opts/parabolic_extrema', 'v': NP('bool', True)}, {'k': 'extrema_opts/pad_width', 'v': NP('int32', 3)}],
     ],
     'mask_sift': [
         [{'k': 'mask_freqs', 'v': {'$': 'array', 'v': [0.25, 0.12, 0.05, 0.02]}}, {'k': 'mask_amp_mode', 'v': 'ratio_sig'}],
@@ -815,6 +897,8 @@ class Behaviour(Stream):
             out.append({'variant': v, 'signal': {'family': 'tones', 'n': 128, 'seed': 3}, 'edits': [], 'seed': 11})
         out.append({'variant': 'sift', 'signal': {'family': 'chirp', 'n': 96, 'seed': 4}, 'seed': 5,
                     'edits': [{'k': 'imf_opts/stop_method', 'v': 'rilling'}]})
+        out.append({'variant': 'sift', 'signal': {'family': 'tones', 'n': 128, 'seed': 3}, 'seed': 11,
+                    'edits': [{'k': 'imf_opts/sd_thresh', 'v': NP('float64', 0.05)}, {'k': 'max_imfs', 'v': NP('int64', 3)}]})
         return out
 
     def generate(self, rng, tier):
@@ -902,4 +986,74 @@ class Behaviour(Stream):
             yield dict(case, edits=case['edits'][:i] + case['edits'][i + 1:])
 
 
-STREAMS = [Edits(), KeyTransform(), YamlRoutes(), YamlCodec(), YamlForeign(), Defaults(), Behaviour()]
+# ------------------------------------------------------------------------------------------------
+# object sharing between a configuration and what was taken from it (observed, not claimed)
+
+class Aliasing(Stream):
+    """`f = cfg.get_func()` (or a `SiftConfig(name, **cfg)` / `dict(cfg)` copy), THEN an edit of `cfg`.
+
+    The property does not say whether the partial follows later edits; the Tree model represents it by the value of the
+    store when it was taken.  What is checked (instance): at the moment it is taken the partial binds exactly the
+    configuration's options, an edit never touches an independently created configuration, and the edited configuration
+    reads the new value.  What is only OBSERVED (tags `seen-by-*` in the evidence; Lean: C18.alias_nested_edit_is_seen,
+    C18.alias_top_level_edit_not_seen): one-level edits are not seen by the partial / copy, nested edits are.
+    """
+    name = 'aliasing'
+    exhaustive = True
+
+    def generate(self, rng, tier):
+        out = []
+        for v in VARIANTS:
+            for taker in ('get_func', 'kwargs_copy', 'dict_copy', 'store_copy'):
+                for key, val in (('max_imfs', 1), ('imf_opts/sd_thresh', 5.0), ('extrema_opts/loc_pad_opts/mode', 'edge'),
+                                 ('imf_opts', {'$': 'dict', 'v': [['sd_thresh', 5.0]]})):
+                    out.append({'variant': v, 'taker': taker, 'k': key, 'v': val})
+        return out
+
+    def impl(self, case):
+        S = sift_mod()
+        cfg = S.get_config(case['variant'])
+        bystander = S.get_config(case['variant'])
+        pristine = _cfg.wire(bystander.store)
+        if case['taker'] == 'get_func':
+            taken = cfg.get_func().keywords
+        elif case['taker'] == 'kwargs_copy':
+            taken = S.SiftConfig(case['variant'], **cfg).store
+        elif case['taker'] == 'dict_copy':
+            taken = dict(cfg)
+        else:
+            taken = S.SiftConfig(case['variant'], cfg.store).store
+        at_creation = _cfg.wire(dict(taken)) == _cfg.wire(cfg.store)
+        before = _cfg.wire(dict(taken))
+        cfg[case['k']] = _cfg.build(case['v'])
+        return {'at_creation_equal': at_creation, 'seen': _cfg.wire(dict(taken)) != before,
+                'taken_equals_config_after': _cfg.wire(dict(taken)) == _cfg.wire(cfg.store),
+                'readback': _cfg.safe_wire(cfg[case['k']]) == _cfg.wire(_cfg.build(case['v'])),
+                'bystander_unchanged': _cfg.wire(bystander.store) == pristine}
+
+    def holds(self, case, out):
+        if isinstance(out, ImplError):
+            return [Failure('aliasing:raises:' + out['error'], out['msg'])]
+        fs = []
+        if not out['at_creation_equal']:
+            fs.append(Failure('partial-or-copy-differs-from-config-when-taken:' + case['taker']))
+        if not out['readback']:
+            fs.append(Failure('edit-not-read-back'))
+        if not out['bystander_unchanged']:
+            fs.append(Failure('edit-leaks-into-another-config', 'an independently created configuration changed'))
+        return fs
+
+    def tags(self, case, out):
+        if isinstance(out, ImplError):
+            return ['impl-error']
+        depth = len(case['k'].split('/'))
+        return ['taker=' + case['taker'],
+                'edit-depth%d:%s-by-%s' % (depth, 'seen' if out['seen'] else 'not-seen', case['taker']),
+                'model-predicts:' + ('seen' if depth >= 2 else 'not-seen'),
+                'as-modelled' if out['seen'] == (depth >= 2) else 'NOT-as-modelled(no sharing)']
+
+    def nontrivial(self, case, out):
+        return not isinstance(out, ImplError) and len(case['k'].split('/')) >= 2
+
+
+STREAMS = [Edits(), KeyTransform(), YamlRoutes(), YamlCodec(), YamlForeign(), Defaults(), Behaviour(), Aliasing()]
